@@ -203,9 +203,31 @@ def run_rc(pid, tier, seed, replay=None):
         # 1. hand-written fixed cases (regressions, known-finding reproductions), then
         #    saved tapes (seconds)
         replayed = 0
-        pf = subprocess.run(prlimit_cmd([exe, "--fixed"] + base_args), env=env, stdout=subprocess.PIPE,
-                            stderr=subprocess.STDOUT, timeout=P.get("replay_timeout", 600))
-        fout = pf.stdout.decode(errors="replace")
+        if P.get("parallel_fixed"):
+            # long fixed cases (C16: one exhaustive enumeration per scenario): one process each, all at once
+            names = subprocess.run([exe, "--list-fixed"], env=env, stdout=subprocess.PIPE).stdout.decode().split()
+
+            def one_fixed(name):
+                rf = os.path.join(work, "fixed-%s.case" % name)
+                with open(rf, "w") as fp:
+                    fp.write("fixed %s\n" % name)
+                try:
+                    p1 = subprocess.run(prlimit_cmd([exe, "--replay", rf] + base_args), env=env, stdout=subprocess.PIPE,
+                                        stderr=subprocess.STDOUT, timeout=P.get("fixed_timeout", 3000))
+                    return p1.returncode, p1.stdout.decode(errors="replace")
+                except subprocess.TimeoutExpired:
+                    log("fixed case %s did not finish within its time limit (inconclusive)" % name)
+                    return 0, ""
+            from concurrent.futures import ThreadPoolExecutor
+            with ThreadPoolExecutor(16) as ex:
+                results = list(ex.map(one_fixed, names))
+            fout = "\n".join(o for _, o in results)
+            rcs = [r for r, _ in results if r not in (0, 1)]
+            pf = subprocess.CompletedProcess([], rcs[0] if rcs else 0)
+        else:
+            pf = subprocess.run(prlimit_cmd([exe, "--fixed"] + base_args), env=env, stdout=subprocess.PIPE,
+                                stderr=subprocess.STDOUT, timeout=P.get("replay_timeout", 600))
+            fout = pf.stdout.decode(errors="replace")
         for k in re.findall(r"^KNOWN (.+)$", fout, re.M):
             known_hit[k] = known_hit.get(k, 0) + 1
         replayed += len(re.findall(r"^FIXED \S+ (PASS|FAIL)", fout, re.M))
